@@ -6,7 +6,7 @@ import RepidModel
 
 open Repid Sexp Driver
 
-def handlers : List Handler := [pureHandler Driver.sched, Driver.mem, pureHandler Driver.worker, pureHandler Driver.codec, pureHandler Driver.conv, pureHandler Driver.route, pureHandler Driver.mw, pureHandler Driver.deps, pureHandler Driver.health, Driver.redis]
+def handlers : List Handler := [pureHandler Driver.sched, Driver.mem, pureHandler Driver.worker, pureHandler Driver.codec, pureHandler Driver.conv, pureHandler Driver.route, pureHandler Driver.mw, pureHandler Driver.deps, pureHandler Driver.health, Driver.redis, Driver.rabbit]
 
 def dispatch (st : DState) (cmd : String) (args : List Sexp) : Option (DState × Sexp) :=
   handlers.firstM fun h => h st cmd args
